@@ -1267,6 +1267,15 @@ def hash_order_iter(it, s, what):
         if it.truth(it.fresh('hash_reversed', 'bool')):
             items.reverse()
         out, items = items, []
+    elif len(items) > 4:
+        # beyond 4 members the n! orders are not enumerated: every rotation and the reverse (n + 1 orders) - a stated bound
+        pick = it.fresh('hash_pick_rot', 8)
+        i = it.decide([pick == j for j in range(len(items) + 1)] + [z3.UGT(pick, len(items))])
+        if i >= len(items):
+            items.reverse()
+        else:
+            items = items[i:] + items[:i]
+        out, items = items, []
     while items:
         if len(items) > 1:
             pick = it.fresh('hash_pick', 8)
@@ -2728,6 +2737,12 @@ def m_hm_iter(it, n, a):
     m = arg0(a)
     items = list(m.entries)
     out = []
+    if len(items) > 4:
+        # beyond 4 entries: every rotation and the reverse (n + 1 orders) instead of n! - a stated bound
+        pick = it.fresh('hash_pick_rot', 8)
+        i = it.decide([pick == j for j in range(len(items) + 1)] + [z3.UGT(pick, len(items))])
+        items = list(reversed(items)) if i >= len(items) else items[i:] + items[:i]
+        out, items = items, []
     while items:
         if len(items) > 1:
             pick = it.fresh('hash_pick', 8)
